@@ -512,14 +512,43 @@ class C10(Prop):
     rule = ("generated well-formed documents (nested, whitespace variants, escaped keys, long strings full of brackets/quotes/backslash runs "
             "across 32/64-byte edges) x up to 4 (quick) / 8 (thorough) of their valid paths, a quarter of them perturbed (missing key, "
             "out-of-range index, wrong kind, empty key); non-trivial = the path has at least one step and resolves")
-    trusted = ["unchecked variants (skip_container bitmaps, get_next_token, skip_string_unchecked) are tied by correspondence only on "
-               "well-formed input; their bit-level lemmas are in Thm/C17"]
+    trusted = ["skip_container and skip_string_unchecked are modelled block by block (Impl/Block, Impl/StrSkip), proved equal to their scalar scans for "
+               "every text and right on every well-formed container / string, and compared with the real functions through the hooks "
+               "verif::container_block / verif::skip_string; get_next_token and the key matching of the unchecked walkers are tied by correspondence "
+               "only, on well-formed input"]
     assumptions = ["documents are duplicate-free except the explicit first-member-wins cases"]
     CHECKED = ["get", "get_slice", "get_bytes", "get_str", "get_string", "get_faststr"]
     UNCHECKED = ["getu", "getu_str"]
 
     def explore(self, ctx, res):
         self._explore(ctx, res, "c10", wellformed=True)
+        self._skippers(ctx, res)
+
+    def _skippers(self, ctx, res):
+        """the block models of skip_container / skip_string_unchecked (the subjects of the unchecked-skip theorems) against the real functions"""
+        if ctx.get("replay") or not ctx["driver"]:
+            return
+        src = generate(ctx, "c17")
+        with open(src) as f:
+            cases = [l for l in f.read().splitlines() if l.startswith("c17 ss") or l.startswith("c17 cb ")]
+        cp = os.path.join(ctx["work"], "c10skip.cases")
+        with open(cp, "w") as f:
+            f.write("\n".join(cases) + "\n")
+        rc, err = ctx["run_lines"](ctx["vh"], ["c17", "run"], cp, cp + ".impl")
+        ctx["run_lines"](ctx["driver"], [], cp, cp + ".model")
+        with open(cp + ".impl", errors="replace") as f:
+            impl = f.read().splitlines()
+        with open(cp + ".model", errors="replace") as f:
+            model = f.read().splitlines()
+        if rc != 0 or len(impl) != len(cases):
+            res.oracle_failures.append(dict(key="c10:skippers:process-abort", case=cases[min(len(impl), len(cases) - 1)], detail=err[-300:]))
+        for i in range(min(len(impl), len(cases))):
+            res.evaluations += 1
+            op = cases[i].split(" ")[1]
+            res.distribution["skipper:" + op] += 1
+            m = model[i] if i < len(model) else None
+            if impl[i] != m:
+                res.model_disagreements.append(dict(key=f"c10:skipper-{op}:model", case=cases[i], detail=f"impl {impl[i]} model {m}"))
 
     def _explore(self, ctx, res, name, wellformed):
         cases_path = generate(ctx, name)
